@@ -9,6 +9,7 @@ from contracts import c_index, c_step, c_blocks
 
 # label prefix -> properties that claim it
 OWNERS = [
+    ("digital_rf_create_rf_data_index.reject_unbounded", ("C05",)),
     ("digital_rf_create_rf_data_index.reject", ("C05",)),
     ("digital_rf_create_rf_data_index.accepts_wellformed", ("C05", "C01")),
     ("digital_rf_create_rf_data_index.within_window", ("C04", "C06")),
@@ -19,6 +20,8 @@ OWNERS = [
     ("assert.digital_rf_create_rf_data_index", ("C06",)),
     ("nowrap.digital_rf_create_rf_data_index", ("C06", "C01")),
     ("bounds.digital_rf_create_rf_data_index", ("C06", "C01")),
+    ("digital_rf_create_rf_data_index.reject_unbounded", ("C05",)),
+    ("digital_rf_get_global_sample.unbounded", ("C01", "C06", "C19")),
     ("digital_rf_get_global_sample", ("C01", "C06", "C19")),
     ("nowrap.digital_rf_get_global_sample", ("C01",)),
     ("bounds.digital_rf_get_global_sample", ("C01",)),
@@ -94,6 +97,11 @@ def add_step_obligations(ck, tu, X, want, units=("index", "step", "blocks")):
                 take([o])
             if pid in ("C06", "C01"):
                 ck.cover("L-index-post.hyps_satisfiable.L%d" % L, hy)
+        # unbounded (loop-invariant) parts: validation half of the index function, block map lookup
+        it = cfront.CInterp(tu, externals=X, config={"prune_full": False})
+        c_index.verify_index_reject_unbounded(it)
+        c_index.verify_global_sample_unbounded(it)
+        take(it.obls)
         for R in range(1, (3 if tier == "thorough" else 2) + 1):
             for ex in (False, True):
                 it = cfront.CInterp(tu, externals=X)
